@@ -312,7 +312,45 @@ func runREFLECTSET(c *Ctx) {
 			pos := P.InstrPos(call)
 			for i, role := range []string{"destination", "source"} {
 				x, vo := valueOfArg(call.Call.Args[i])
+				if x == nil && role == "source" {
+					if zc, ok := call.Call.Args[i].(*ssa.Call); ok {
+						if sc := ir.Callee(zc.Call); sc != nil && sc.String() == "reflect.Zero" {
+							c.OK(pos, "source of reflect Set in "+ir.FuncName(fn)+": reflect.Zero(…)", "the zero Value of the destination's type: never the invalid Value", false)
+							continue
+						}
+					}
+				}
 				if x == nil {
+					// the reflect.Value was handed in by the caller (assignValue(dest reflect.Value, v)): judged at
+					// every call site of this helper
+					if prm, isP := call.Call.Args[i].(*ssa.Parameter); isP && prm.Parent() == fn && len(P.Callers[fn]) > 0 {
+						allOK := true
+						for _, cs := range P.Callers[fn] {
+							idx := paramIndex(prm)
+							args := cs.Common().Args
+							if idx < 0 || idx >= len(args) {
+								allOK = false
+								continue
+							}
+							cx, cvo := valueOfArg(args[idx])
+							if cx == nil {
+								allOK = false
+								continue
+							}
+							cx = ir.Strip(cx)
+							if ok, _ := ir.GuardedNonNil(cx, cvo); !ok && !ir.FlowNonNil(cx, cvo) {
+								allOK = false
+							}
+						}
+						what := fmt.Sprintf("%s of reflect Set in %s: parameter %s", role, ir.FuncName(fn), prm.Name())
+						if allOK {
+							c.OK(pos, what, "a reflect.Value built by every caller from a value tested non-nil there", false)
+						} else {
+							c.Violation(fn, pos, role+" of reflect Set may be a nil interface",
+								"reflect.ValueOf(nil) is the zero Value, and Set / Elem on it panics: a caller hands this helper a reflect.Value built from a value it has not tested non-nil")
+						}
+						continue
+					}
 					c.Undecided(fn, pos, "reflect Set "+role, "cannot trace the "+role+" of Set back to reflect.ValueOf")
 					continue
 				}
@@ -544,42 +582,47 @@ func runCOUNTCHECK(c *Ctx) {
 										}
 									}
 								}
-								eq := ir.FlowFact(ia, func(fc ir.Fact) bool {
-									if linkSym != "" {
-										if tv, tnn, isNil := ir.NilTest(fc.Cond); isNil && fc.Truth != tnn && ir.Sym(tv) == linkSym {
-											return true
-										}
-									}
-									bin, ok := fc.Cond.(*ssa.BinOp)
-									if !ok {
-										return false
-									}
-									side := func(v ssa.Value) (string, string, int64, bool) {
-										if bb, f, ok := lenOfField(v); ok {
-											return bb, f, 0, true
-										}
-										if bo, ok := ir.ResolveCell(v).(*ssa.BinOp); ok && bo.Op == token.ADD {
-											if k, isK := ir.ConstInt(bo.Y); isK {
-												if bb, f, ok := lenOfField(bo.X); ok {
-													return bb, f, k, true
-												}
+								mkLinkEq := func(base, linkSym string) func(ir.Fact) bool {
+									return func(fc ir.Fact) bool {
+										if linkSym != "" {
+											if tv, tnn, isNil := ir.NilTest(fc.Cond); isNil && fc.Truth != tnn && ir.Sym(tv) == linkSym {
+												return true
 											}
 										}
-										return "", "", 0, false
+										bin, ok := fc.Cond.(*ssa.BinOp)
+										if !ok {
+											return false
+										}
+										side := func(v ssa.Value) (string, string, int64, bool) {
+											if bb, f, ok := lenOfField(v); ok {
+												return bb, f, 0, true
+											}
+											if bo, ok := ir.ResolveCell(v).(*ssa.BinOp); ok && bo.Op == token.ADD {
+												if k, isK := ir.ConstInt(bo.Y); isK {
+													if bb, f, ok := lenOfField(bo.X); ok {
+														return bb, f, k, true
+													}
+												}
+											}
+											return "", "", 0, false
+										}
+										b1, f1, k1, ok1 := side(bin.X)
+										b2, f2, k2, ok2 := side(bin.Y)
+										if !ok1 || !ok2 || b1 != base || b2 != base {
+											return false
+										}
+										if f2 == "Link" {
+											f1, f2, k1, k2 = f2, f1, k2, k1
+										}
+										if f1 != "Link" || (f2 != "Key" && f2 != "Value") || k2-k1 != 1 {
+											return false
+										}
+										return (bin.Op == token.EQL && fc.Truth) || (bin.Op == token.NEQ && !fc.Truth)
 									}
-									b1, f1, k1, ok1 := side(bin.X)
-									b2, f2, k2, ok2 := side(bin.Y)
-									if !ok1 || !ok2 || b1 != decodedBase || b2 != decodedBase {
-										return false
-									}
-									if f2 == "Link" {
-										f1, f2, k1, k2 = f2, f1, k2, k1
-									}
-									if f1 != "Link" || (f2 != "Key" && f2 != "Value") || k2-k1 != 1 {
-										return false
-									}
-									return (bin.Op == token.EQL && fc.Truth) || (bin.Op == token.NEQ && !fc.Truth)
-								}, func(ssa.Instruction) bool { return false })
+								}
+								eq := ir.FlowFactGen(ia, mkLinkEq(decodedBase, linkSym),
+									countHelperGen(c, decodedBase, func(hb string) func(ir.Fact) bool { return mkLinkEq(hb, "*"+hb+".Link") }),
+									func(ssa.Instruction) bool { return false })
 								what := fmt.Sprintf("decoded %s.Link copied by position into the node's links in %s", pathDesc(decodedBase), ir.FuncName(fn))
 								if eq {
 									c.OK(P.InstrPos(ia), what, "len(decoded Link) == len(decoded Key)+1 was established on every path", false)
@@ -638,18 +681,21 @@ func runCOUNTCHECK(c *Ctx) {
 					if byOwn || !byOther {
 						continue
 					}
-					eq := ir.FlowFact(ia, func(fc ir.Fact) bool {
-						bin, ok := fc.Cond.(*ssa.BinOp)
-						if !ok {
-							return false
+					mkKV := func(base string) func(ir.Fact) bool {
+						return func(fc ir.Fact) bool {
+							bin, ok := fc.Cond.(*ssa.BinOp)
+							if !ok {
+								return false
+							}
+							b1, f1, ok1 := lenOfField(bin.X)
+							b2, f2, ok2 := lenOfField(bin.Y)
+							if !ok1 || !ok2 || b1 != base || b2 != base || f1 == f2 {
+								return false
+							}
+							return (bin.Op == token.EQL && fc.Truth) || (bin.Op == token.NEQ && !fc.Truth)
 						}
-						b1, f1, ok1 := lenOfField(bin.X)
-						b2, f2, ok2 := lenOfField(bin.Y)
-						if !ok1 || !ok2 || b1 != base || b2 != base || f1 == f2 {
-							return false
-						}
-						return (bin.Op == token.EQL && fc.Truth) || (bin.Op == token.NEQ && !fc.Truth)
-					}, func(i ssa.Instruction) bool {
+					}
+					eq := ir.FlowFactGen(ia, mkKV(base), countHelperGen(c, base, mkKV), func(i ssa.Instruction) bool {
 						st, ok := i.(*ssa.Store)
 						return ok && ir.MayClobber(ir.Sym(st.Addr), []string{base})
 					})
@@ -1509,4 +1555,50 @@ func carriesValue(v, want ssa.Value, d int) bool {
 		}
 	}
 	return false
+}
+
+// countHelperGen: a call that hands the decoded node `base` to a checking helper of the repository establishes a
+// count fact when every nil-error return of that helper is reached only where the fact (stated over the helper's own
+// parameter) has been established: `err = checkStringNodeCounts(l, &stringNode); if err != nil { return err }`.
+func countHelperGen(c *Ctx, base string, mk func(base string) func(ir.Fact) bool) func(ssa.Instruction) bool {
+	cache := map[*ssa.Call]bool{}
+	return func(i ssa.Instruction) bool {
+		call, ok := i.(*ssa.Call)
+		if !ok {
+			return false
+		}
+		if v, done := cache[call]; done {
+			return v
+		}
+		cache[call] = false
+		h := ir.Callee(call.Call)
+		if h == nil || h.Blocks == nil || !isOwn(c.P, h) || len(call.Call.Args) != len(h.Params) {
+			return false
+		}
+		ei := ir.ErrorResultIndex(h.Signature)
+		if ei < 0 {
+			return false
+		}
+		for ai, a := range call.Call.Args {
+			if ir.Sym(ir.ResolveCell(a)) != base && ir.Sym(a) != base {
+				continue
+			}
+			pred := mk(ir.Sym(h.Params[ai]))
+			n, all := 0, true
+			for _, r := range ir.Returns(h) {
+				if ei >= len(r.Results) || !ir.IsNilConst(r.Results[ei]) {
+					continue
+				}
+				n++
+				if !ir.FlowFact(r, pred, func(ssa.Instruction) bool { return false }) {
+					all = false
+				}
+			}
+			if n > 0 && all {
+				cache[call] = true
+				return true
+			}
+		}
+		return false
+	}
 }
